@@ -341,6 +341,8 @@ def run_one(prop, cfg, tier, regress_path, known, outdir, mode=None, shard=None,
         cmd += ["--regress", regress_path]
     if prop.get("ub_is_violation"):
         cmd += ["--ub-violation", "1"]
+    if prop.get("env_fuzz"):
+        cmd += ["--env-fuzz", "%d,%d" % tuple(prop["env_fuzz"])]
     for p in (out, out + ".crash"):
         if os.path.exists(p):
             os.remove(p)
@@ -486,7 +488,7 @@ def aggregate(pid, prop, tier, cfgs, results, known, nreg, t0, extra_cov=None):
         rule = j["rule"] or rule
         ev["evaluations"] += j["evaluations"]; ev["lanes"] += j["lanes_compared"]; ev["nontrivial"] += j["nontrivial"]
         ev["distinct_max"] = max(ev["distinct_max"], j["distinct_nontrivial"]); ev["distinct_sum"] += j["distinct_nontrivial"]
-        ev["known_excl"] += j["known_excluded"]; ev["na"] += j["not_applicable"]
+        ev["known_excl"] += j["known_excluded"]; ev["na"] += j["not_applicable"]; ev["env_fuzzed"] = ev.get("env_fuzzed", 0) + j.get("env_fuzzed", 0)
         ev["saturated"] = ev.get("saturated", False) or j.get("distinct_saturated", False)
         for k, v in j["classes"].items():
             classes[k] = classes.get(k, 0) + v
@@ -572,6 +574,7 @@ def aggregate(pid, prop, tier, cfgs, results, known, nreg, t0, extra_cov=None):
         "if_arms": arms, "regression_cases_replayed": nreg,
         "known_findings_hit": {k: {"count": v["count"], "configs": v["configs"][:8], "example": v["example"]["case"], "msg": v["example"]["msg"]} for k, v in known_hits.items()},
         "cases_excluded_as_known": ev["known_excl"], "not_applicable_cases": ev["na"],
+        "cases_run_under_a_non_default_fp_environment": ev.get("env_fuzzed", 0),
         "violation_list": [{"config": c, "sig": f["sig"], "msg": f["msg"], "replay": os.path.relpath(p, HERE)} for c, f, p in viol][:40],
         "broken": broken,
         "ub_reports": ub_reports,
